@@ -3,6 +3,7 @@ module verifharness
 go 1.26.5
 
 require (
+	github.com/anishathalye/porcupine v1.3.0
 	github.com/apmckinlay/gsuneido v0.0.0
 	pgregory.net/rapid v1.3.0
 )
